@@ -62,6 +62,7 @@ type run struct {
 	seekOutstanding bool // GetHistory left the State seeked and no block came since
 	stakeBad        map[common.Uint168]bool
 	seekTaint       bool // a block was processed while a seek was outstanding (until the instance is replaced)
+	forcedInSpan    bool // a rolled-back block carried an InactiveArbitrators payload (pre-processed at height-1)
 	deepSingleCall  bool // the last rollback was one OnRollbackTo over more than one block (the node itself goes block by block)
 	// C28 bookkeeping of the previous state
 }
@@ -367,8 +368,18 @@ func (r *run) stepBlock(s *Step) {
 		planTxs = nil
 		c.Probe("vote-statistics-block")
 	}
+	restoreInst := func() {}
 	if r.seekOutstanding {
 		r.seekTaint = true
+		if r.twin != nil && !r.twin.dead {
+			// The State is seeked to an old height: its transaction checks
+			// would judge candidates against history (and admit, say, a second
+			// registration of a producer). Blocks are what a node that never
+			// seeked would accept: judge against the unseeked twin.
+			orig := r.world.inst
+			r.world.inst = r.twin
+			restoreInst = func() { r.world.inst = orig }
+		}
 	}
 	r.seekOutstanding = false
 	for _, d := range planTxs {
@@ -428,6 +439,9 @@ func (r *run) stepBlock(s *Step) {
 			c.Fault("adversarial-accepted/" + cd.kind)
 		}
 		c.Probe("tx/" + cd.kind)
+		if debugWhy && cd.prod != nil {
+			fmt.Printf("  h=%d accepted %s prod=%d\n", h, cd.kind, cd.prod.idx)
+		}
 		switch cd.kind {
 		case "retdep":
 			acct.withdrawn[cd.prod.idx] += cd.withdrawn
@@ -447,6 +461,8 @@ func (r *run) stepBlock(s *Step) {
 		}
 		r.noteAccepted(cd)
 	}
+
+	restoreInst()
 
 	// sponsor / confirm
 	var sponsor []byte
@@ -487,7 +503,7 @@ func (r *run) stepBlock(s *Step) {
 			// the rule attributed more than the pool
 			c.Check()
 			seats := len(r.params.DPoSConfiguration.CRCArbiters) + r.params.DPoSConfiguration.NormalArbitratorsCount
-			c.Violate("C27", "distribution", "C27/observed"+roundClass(pre, seats)+"/rule-exceeds-pool-node-stops",
+			c.Violate("C27", "distribution", c27StopSig(roundClass(pre, seats)),
 				"height %d: the reward rule attributed more than the accumulated pool while clearing the round (%d arbiters for %d seats, %d candidates, %d votes in the round's snapshot); the node panics: %s",
 				h, pre.nArbs, seats, pre.nCands, int64(pre.totalVotes), short(msg))
 		}
@@ -498,7 +514,11 @@ func (r *run) stepBlock(s *Step) {
 	}
 	if r.twin != nil && (pan != nil) != (tpan != nil) {
 		c.Check()
-		c.Violate("C21", "twin", "C21/twin-differs/panic-on-one-side-only",
+		sg := "C21/twin-differs/panic-on-one-side-only"
+		if r.seekTaint {
+			sg = "C21/state-differs-after-block-processed-during-seek"
+		}
+		c.Violate("C21", "twin", sg,
 			"height %d: panic on rolled-back instance=%v, on directly built twin=%v", h, pan, tpan)
 	}
 	if pan != nil {
@@ -583,6 +603,14 @@ func (r *run) stepRollback(s *Step) {
 			if r.algAt[hh] != r.algAt[target] {
 				c.Probe("rollback-crossed-consensus-mode-switch")
 				break
+			}
+		}
+	}
+	r.forcedInSpan = false
+	for hh := target + 1; hh <= cur; hh++ {
+		for _, tx := range r.chain[hh].blk.Transactions {
+			if tx.TxType() == common2.InactiveArbitrators {
+				r.forcedInSpan = true
 			}
 		}
 	}
@@ -785,4 +813,11 @@ func (r *run) inactiveWouldPass(cd *candTx) bool {
 	}()
 	r.drainCaptured()
 	return ok
+}
+
+func c27StopSig(class string) string {
+	if class != "" {
+		return "C27/observed" + class
+	}
+	return "C27/observed/rule-exceeds-pool-node-stops"
 }
